@@ -43,6 +43,8 @@ def run(R, job):
             yield "name:" + nm, core.Tag(nm, s)
             yield "name2:" + nm, core.Tag(nm, s, core.Tag("b", _add_ws=False), _add_ws=False)
     strs = [("".join(r.choice(META + ctx.texts) for _ in range(r.choice([1, 1, 2, 3, 5])))) for _ in range(n)] + META + [s for s in ctx.texts]
+    # long strings: many metacharacters in one string (every one of them is escaped, not only the first few)
+    strs += ["".join(r.choice(["<", ">", "&", "a", " "]) for _ in range(r.choice([12, 20, 40, 70]))) for _ in range(max(4, n // 20))] + ["1<2, 2<3, 3<4, 4<5, 5<6, 6<7, 7<8, 8<9; <script>alert(1)</script>", "&" * 33, "label:   "]
     for s in strs:
         e = expected(s)
         if util.html_escape(s) != e or htmlmod.unescape(e) != s and "&" not in s:
